@@ -475,6 +475,11 @@ func (s *scen) observe(kind, outcome, modelReply string, fullDump bool) {
 				}
 				tb.firstSeen, want.firstSeen = want.firstSeen, tb.firstSeen
 				s.note = ""
+				if key == "float-work-exact-tie" {
+					// the model compares exact sums: from here on its state differs from the node's by design; the rest of the
+					// scenario is judged by the reference alone
+					s.noModel = true
+				}
 				break
 			}
 			s.propFail(key, what)
@@ -680,7 +685,10 @@ func (s *scen) undoLast() {
 		s.propFail("undo-panic", "UndoLastBlock panics: "+pan)
 		return
 	}
-	rep := o.MustAsk("undolast")
+	rep := ""
+	if !s.noModel {
+		rep = o.MustAsk("undolast")
+	}
 	real := chainkit.UtxoDump(s.k.Ch.Unspent)
 	nt, _ := s.k.Tip()
 	r.Eval("undo", nt+chainkit.DumpHash(real))
@@ -688,6 +696,9 @@ func (s *scen) undoLast() {
 	ref := dumpOfView(view)
 	if nt != hex.EncodeToString(tb.Parent.Hash[:]) || !sameLines(real, ref) {
 		s.propFail("undo-residue", fmt.Sprintf("after disconnecting block #%d the UTXO set differs from the replay of its parent's branch:%s", tb.idx, diffLines(real, ref, "node", "replay")))
+		return
+	}
+	if s.noModel {
 		return
 	}
 	f := strings.Fields(rep)
@@ -711,10 +722,12 @@ func (s *scen) undoFilesCheck() {
 		return
 	}
 	s.farthestCheck()
-	rep := o.MustAsk("undochk")
-	if !strings.HasPrefix(rep, "ok") {
-		s.tieFail("tie-undochk", "model: undo data missing within the unwind window: "+rep)
-		return
+	if !s.noModel {
+		rep := o.MustAsk("undochk")
+		if !strings.HasPrefix(rep, "ok") {
+			s.tieFail("tie-undochk", "model: undo data missing within the unwind window: "+rep)
+			return
+		}
 	}
 	tip := s.k.Ch.LastBlock()
 	for n := tip; n != nil && n.Parent != nil && tip.Height-n.Height < 2560; n = n.Parent {
